@@ -59,6 +59,13 @@ def case_1d(ctx, index, rng: random.Random):
         pairs = gen.pairs_from_edges(gen.irregular_edges(rng, nb))
     else:
         pairs = gen.pairs_from_edges(gen.edges(rng, nb))
+    edges32 = False
+    if rng.random() < 0.12:
+        # bin edges that arrive as float32 (they are what they are, e.g. float32(0.1)); the values stay python floats / float64
+        p32 = np.array(pairs).astype(np.float32)
+        if np.all(p32[:, 0] < p32[:, 1]) and np.all(p32[1:, 0] >= p32[:-1, 1]) and np.all(np.isfinite(p32)):
+            pairs = p32.astype(float).tolist()
+            edges32 = True
     gapped = not gen.is_consecutive_pairs(pairs)
     n = rng.choice([0, 1, 3, 8, 20, 40 if ctx.quick else 120])
     with_nan = rng.random() < 0.3
@@ -72,8 +79,8 @@ def case_1d(ctx, index, rng: random.Random):
         if rng.random() < 0.4:
             dtype = "float64"
     int_gap = gapped and not float_contents and dtype is None
-    bins_arr = np.array(pairs)
-    desc = {"dim": 1, "bins": gen.hexlist(bins_arr.ravel()), "data": gen.hexlist(data), "weights": None if wts is None else list(wts),
+    bins_arr = np.array(pairs) if not edges32 else np.array(pairs).astype(np.float32)
+    desc = {"dim": 1, "edges_type": "float32" if edges32 else "float64", "bins": gen.hexlist(bins_arr.ravel()), "data": gen.hexlist(data), "weights": None if wts is None else list(wts),
             "keep_missed": keep_missed, "dtype": dtype, "gapped": gapped}
 
     def fresh():
@@ -136,7 +143,8 @@ def case_1d(ctx, index, rng: random.Random):
                 hb.fill(v)
             else:
                 w = wts[i]
-                hb.fill(v, w if rng.random() < 0.5 else type(w)(w))
+                nw_, _ = gen.narrow_weights(rng, [w], p=0.2)
+                hb.fill(v, nw_[0] if nw_ is not None else (w if rng.random() < 0.5 else type(w)(w)))
         finals["fill"] = _numeric_state(hb, True)
     except Exception as e:
         rec.mon("C03.history.equiv")
@@ -154,7 +162,8 @@ def case_1d(ctx, index, rng: random.Random):
             if cw is None:
                 hc.fill_n(vals)
             else:
-                hc.fill_n(vals, np.asarray(cw) if rng.random() < 0.7 else list(cw))
+                nw_, _ = gen.narrow_weights(rng, cw, p=0.3)  # the same weights in a narrow element type
+                hc.fill_n(vals, nw_ if nw_ is not None else (np.asarray(cw) if rng.random() < 0.7 else list(cw)))
         finals["fill_n"] = _numeric_state(hc, True)
     except Exception as e:
         rec.mon("C03.history.equiv")
